@@ -1,27 +1,32 @@
 #!/bin/bash
 # usage: tools/seedsweep.sh [tier] [name...]  — runs every kept seeded change through the check of the property it breaks
-# (apply to /repo, run, revert) and writes /verif/seeded/RESULTS.md. /repo must be clean.
+# and writes /verif/seeded/RESULTS.md. Each change is applied to a private scratch copy of /repo's HEAD (removed
+# afterwards), so /repo itself is never touched and several run at once (JOBS, default 3).
 set -u
 tier="${1:-quick}"; shift || true
 cd /verif
 names="$*"; [ -n "$names" ] || names=$(ls seeded | grep -v RESULTS)
 out=seeded/RESULTS.md
-tmp=$(mktemp)
-for n in $names; do
-  d=seeded/$n; [ -f $d/patch.diff ] || continue
+tmpd=$(mktemp -d /tmp/sweep-XXXXXX)
+( cd engine && GOFLAGS=-mod=mod GOPROXY=off GOSUMDB=off GOTOOLCHAIN=local go build -o ../bin/zsym ./cmd/zsym ) || exit 3
+one() {
+  n="$1"; tier="$2"; tmpd="$3"
+  d=/verif/seeded/$n; [ -f $d/patch.diff ] || exit 0
   prop=$(python3 -c "import json;print(json.load(open('$d/meta.json')).get('property','${n%%-*}'))" 2>/dev/null || echo ${n%%-*})
-  git -C /repo diff --quiet || { echo "/repo not clean"; exit 2; }
-  if ! git -C /repo apply --check /verif/$d/patch.diff 2>/dev/null; then echo "| $n | $prop | patch no longer applies | |" >> $tmp; continue; fi
-  git -C /repo apply /verif/$d/patch.diff
+  w=$(mktemp -d /tmp/rs-XXXXXX)
+  git -C /repo archive HEAD | tar -x -C "$w"
+  if ! ( cd "$w" && git init -q . && git apply "$d/patch.diff" ) 2>/dev/null; then echo "| $n | $prop | patch no longer applies | | |" > $tmpd/$n.row; rm -rf "$w"; exit 0; fi
   t0=$(date +%s)
-  log=$(/verif/check $prop --tier $tier -no-evidence 2>&1); rc=$?
+  log=$(/verif/check $prop --tier $tier -no-evidence -repo "$w" 2>&1); rc=$?
   t1=$(date +%s)
-  git -C /repo checkout -- .
+  rm -rf "$w"
   viol=$(echo "$log" | grep -c '^VIOLATION')
   harn=$(echo "$log" | grep 'counterexample:' | sed 's/.*counterexample: \([A-Za-z0-9_]*\)\/\([^ ]*\).*/\1\/\2/' | sort -u | head -3 | tr '\n' ' ')
   case $rc in 1) res="caught ($viol VIOLATION lines)";; 0) res="MISSED (exit 0)";; *) res="inconclusive (exit $rc)";; esac
-  echo "| $n | $prop | $res | $harn | $((t1-t0)) s |" >> $tmp
+  echo "| $n | $prop | $res | $harn | $((t1-t0)) s |" > $tmpd/$n.row
   echo "$n $prop rc=$rc viol=$viol"
-done
-{ echo "# Seeded changes vs. checks ($tier tier, $(date -u +%F))"; echo; echo "Each row: the change in /verif/seeded/<name>/patch.diff applied to /repo, the property's check run, /repo restored."; echo; echo "| seed | property | result | harness/assertion (first few) | time |"; echo "|---|---|---|---|---|"; cat $tmp; } > $out
-rm -f $tmp
+}
+export -f one
+echo $names | tr ' ' '\n' | xargs -P ${JOBS:-3} -I{} bash -c "one {} $tier $tmpd"
+{ echo "# Seeded changes vs. checks ($tier tier, $(date -u +%F))"; echo; echo "Each row: the change in /verif/seeded/<name>/patch.diff applied to a scratch copy of /repo's HEAD, the property's check run on it, the copy removed."; echo; echo "| seed | property | result | harness/assertion (first few) | time |"; echo "|---|---|---|---|---|"; for n in $names; do cat $tmpd/$n.row 2>/dev/null; done; } > $out
+rm -rf $tmpd
